@@ -19,7 +19,8 @@ BucketFails(ev) ==
     \cup (IF ev.valid # "bool" THEN {"is_sequence_valid_" \o ev.valid} ELSE {})
 
 (* deferred validation: the string parses; if the value has no meaning, mass and composition raise a ValueError *)
-DeferredFails(ev) ==
+(* strict events: hand-written values, known to be valid notation and fully inside the spec's vocabulary.         *)
+StrictFails(ev) ==
     LET sm0 == Sem(ev.v)
         (* a formula over an unknown element symbol has no mass *)
         sm == [ sm0 EXCEPT !.ok = sm0.ok /\ Resolvable(sm0.comp, TRUE) ]
@@ -30,6 +31,35 @@ DeferredFails(ev) ==
     \cup (IF ~hasComp /\ ev.parse.cls = "ret" /\ ev.comp.cls = "ret" THEN {"unresolvable_modification_silently_given_a_composition"} ELSE {})
     \cup (IF ev.parse.cls = "ret" /\ ev.comp.cls # "ret" /\ ev.comp.isv = 0 THEN {"comp_raises_" \o ev.comp.cls} ELSE {})
     \cup (IF sm.ok /\ ev.parse.cls = "ret" /\ ev.mass.cls # "ret" THEN {"resolvable_modification_rejected_by_mass"} ELSE {})
+
+(* generated values (strict = FALSE): prefix x arbitrary pieces.  Whether the string is notation at all is the        *)
+(* parser's call, but every answer is a ValueError.  The spec's grammar of numbers, Formula:, Glycan:, Obs:, INFO:     *)
+(* is what the notation defines; Python's float() and the library accept a little more (" +15.99", ".35"), and the     *)
+(* spec's element / vocabulary tables are subsets - so, as the statement says, the defect is a value WITHOUT meaning    *)
+(* that is silently counted as zero (mass / composition of the unmodified peptide comes back), and a value WITH        *)
+(* meaning that is rejected.  Judged when the annotation holds the value as written and its meaning does not depend    *)
+(* on a vocabulary lookup.                                                                                             *)
+VocabPrefixes == {"u", "unimod", "m", "mod", "psi-mod", "x", "xlmod", "r", "resid", "g", "gno"}
+AltGrammarDefined(t0) ==
+    LET t == StripTag(t0) IN
+    \/ At(t0, 1) = "#" \/ IsDecimalText(t)
+    \/ PrefixOf(t) \in {"formula", "glycan", "obs", "info"}
+    \/ (PrefixOf(t) \in VocabPrefixes /\ At(BodyOf(t), 1) \in {"+", "-"})
+GrammarDefined(v) == LET alts == SplitBar(SubSeq(v, 3, Len(v))) IN \A k \in 1..Len(alts) : AltGrammarDefined(alts[k])
+GeneratedFails(ev) ==
+    LET sm0 == Sem(ev.v)
+        meaningless == ~sm0.ok \/ ~RealSymbols(sm0.comp)
+        meaningful == sm0.ok /\ Resolvable(sm0.comp, TRUE)
+        judged == ev.parse.cls = "ret" /\ ev.held /\ GrammarDefined(ev.v) IN
+    (IF ev.parse.cls # "ret" /\ ev.parse.isv = 0 THEN {"parser_raises_" \o ev.parse.cls} ELSE {})
+    \cup (IF ev.parse.cls = "ret" /\ ev.mass.cls # "ret" /\ ev.mass.isv = 0 THEN {"mass_raises_" \o ev.mass.cls} ELSE {})
+    \cup (IF ev.parse.cls = "ret" /\ ev.comp.cls # "ret" /\ ev.comp.isv = 0 THEN {"comp_raises_" \o ev.comp.cls} ELSE {})
+    \cup (IF judged /\ meaningless /\ ev.mass.cls = "ret" /\ ev.massUnchanged
+          THEN {"unresolvable_modification_silently_counted_as_zero_mass"} ELSE {})
+    \cup (IF judged /\ meaningless /\ ev.comp.cls = "ret" /\ ev.compUnchanged
+          THEN {"unresolvable_modification_silently_counted_as_empty_composition"} ELSE {})
+    \cup (IF judged /\ meaningful /\ ev.mass.cls # "ret" THEN {"resolvable_modification_rejected_by_mass"} ELSE {})
+DeferredFails(ev) == IF ev.strict THEN StrictFails(ev) ELSE GeneratedFails(ev)
 
 (* global isotope labels: a label is [massnumber]Element (or D / T) for an element of the table *)
 IsLabel(t) == \/ t \in {"D", "T"}
